@@ -10,6 +10,7 @@ import (
 
 	"github.com/DataDog/zstd"
 	"github.com/mimecast/dtail/internal/config"
+	"github.com/mimecast/dtail/verif/vos"
 	"github.com/mimecast/dtail/verif/vrt"
 )
 
@@ -21,6 +22,9 @@ type c01Case struct {
 	Encoding string `json:"encoding"`       // "" gz gzip zst
 	M        int    `json:"max_line_length"`
 	LogLevel string `json:"log_level"`
+	// SlowReadMs makes every read(2) of the file take that long (virtual time):
+	// the read then spans dtail's periodic (3 s) truncation check.
+	SlowReadMs int `json:"slow_read_ms,omitempty"`
 }
 
 // c01Split is the statement's reference: a newline is inserted after each run
@@ -86,11 +90,17 @@ func c01Run(c *Ctx, cs c01Case, content []byte) {
 		args.Plain = true
 		args.What = path
 		args.LogLevel = cs.LogLevel
-		got = RunClientBody(ClientOpts{Kind: "cat", Args: args, Mutate: func() { config.Server.MaxLineLength = cs.M }})
+		got = RunClientBody(ClientOpts{Kind: "cat", Args: args, Mutate: func() {
+			config.Server.MaxLineLength = cs.M
+			if cs.SlowReadMs > 0 {
+				vos.S.ReadDelay = time.Duration(cs.SlowReadMs) * time.Millisecond
+				vos.S.ReadDelayPrefix = Scratch() + "/c01/"
+			}
+		}})
 	})
 	key := ""
 	if len(content) > 0 {
-		key = fmt.Sprintf("%s|%s|%d|%s|%s", cs.Content, cs.Desc, cs.M, cs.Encoding, cs.LogLevel)
+		key = fmt.Sprintf("%s|%s|%d|%s|%s|%d", cs.Content, cs.Desc, cs.M, cs.Encoding, cs.LogLevel, cs.SlowReadMs)
 	}
 	c.Count(key)
 	show := func(b []byte) string {
@@ -152,6 +162,25 @@ func c01Cases(thorough bool, emit func(cs c01Case, content []byte)) {
 		}
 		emit(c01Case{Content: s, M: 1024, LogLevel: "info"}, []byte(s))
 	})
+	// slow reads: the read spans the reader's periodic truncation check (3 s) and poll timers
+	for _, content := range []string{"a\nb", "a\nb\n", "xxxxxxxxxxxx\nlast", "", strings.Repeat("yyyyyyy\n", 300) + "last", strings.Repeat("yyyyyyy\n", 300)} {
+		for _, enc := range []string{"", "gz", "gzip", "zst"} {
+			for _, ms := range []int{100, 1600, 3500} {
+				emit(c01Case{Content: content, M: 8, Encoding: enc, LogLevel: "error", SlowReadMs: ms}, []byte(content))
+			}
+		}
+	}
+	// several lines longer than the transport buffer in one session
+	for _, m := range []int{100000} {
+		for _, nl := range []bool{true, false} {
+			var b bytes.Buffer
+			b.WriteString("short1\n" + strings.Repeat("A", 40000) + "\n" + strings.Repeat("B", 50000) + "\nshort2\n" + strings.Repeat("C", 33000))
+			if nl {
+				b.WriteString("\n")
+			}
+			emit(c01Case{Desc: fmt.Sprintf("lines of 40000, 50000 and 33000 bytes among short lines, final newline %v", nl), M: m, LogLevel: "error"}, b.Bytes())
+		}
+	}
 	// long-line family
 	ms := []int{8, 1024, 100000}
 	if thorough {
